@@ -1432,5 +1432,78 @@ pub mod verif {
             .build()
             .expect("failed to build thread pool")
     }
+
+    /// Result of packing one block with the generic f32 packers: the packed
+    /// elements, `PackedLayout::size()` and `PackedLayout::panel_stride()` (bytes).
+    pub type PackedBlock = (Vec<f32>, usize, usize);
+
+    fn pack_a_const<const MR: usize>(
+        a: rten_tensor::Matrix<f32>,
+        rows: std::ops::Range<usize>,
+        cols: std::ops::Range<usize>,
+    ) -> PackedBlock {
+        let layout = crate::packing::packed_a_layout::<f32, MR>(rows.len(), cols.len());
+        let n = layout.size() / size_of::<f32>();
+        let mut out: Vec<f32> = Vec::with_capacity(n);
+        crate::packing::pack_a_block::<f32, MR>(&mut out.spare_capacity_mut()[..n], a, rows, cols);
+        // Safety: `pack_a_block` initialized `n` elements (it asserts so).
+        unsafe { out.set_len(n) };
+        (out, layout.size(), layout.panel_stride())
+    }
+
+    fn pack_b_const<const NR: usize>(
+        b: rten_tensor::Matrix<f32>,
+        rows: std::ops::Range<usize>,
+        cols: std::ops::Range<usize>,
+    ) -> PackedBlock {
+        let layout = crate::packing::packed_b_layout::<f32, NR>(rows.len(), cols.len());
+        let n = layout.size() / size_of::<f32>();
+        let mut out: Vec<f32> = Vec::with_capacity(n);
+        crate::packing::pack_b_block::<f32, NR>(&mut out.spare_capacity_mut()[..n], b, rows, cols);
+        // Safety: `pack_b_block` initialized `n` elements (it asserts so).
+        unsafe { out.set_len(n) };
+        (out, layout.size(), layout.panel_stride())
+    }
+
+    /// `packing::pack_a_block::<f32, MR>` with a run-time `mr` (None if no
+    /// instantiation for that value is compiled here).
+    pub fn pack_a_block_f32(
+        mr: usize,
+        a: rten_tensor::Matrix<f32>,
+        rows: std::ops::Range<usize>,
+        cols: std::ops::Range<usize>,
+    ) -> Option<PackedBlock> {
+        Some(match mr {
+            1 => pack_a_const::<1>(a, rows, cols),
+            2 => pack_a_const::<2>(a, rows, cols),
+            3 => pack_a_const::<3>(a, rows, cols),
+            4 => pack_a_const::<4>(a, rows, cols),
+            5 => pack_a_const::<5>(a, rows, cols),
+            6 => pack_a_const::<6>(a, rows, cols),
+            7 => pack_a_const::<7>(a, rows, cols),
+            8 => pack_a_const::<8>(a, rows, cols),
+            _ => return None,
+        })
+    }
+
+    /// `packing::pack_b_block::<f32, NR>` with a run-time `nr`.
+    pub fn pack_b_block_f32(
+        nr: usize,
+        b: rten_tensor::Matrix<f32>,
+        rows: std::ops::Range<usize>,
+        cols: std::ops::Range<usize>,
+    ) -> Option<PackedBlock> {
+        Some(match nr {
+            1 => pack_b_const::<1>(b, rows, cols),
+            2 => pack_b_const::<2>(b, rows, cols),
+            3 => pack_b_const::<3>(b, rows, cols),
+            4 => pack_b_const::<4>(b, rows, cols),
+            5 => pack_b_const::<5>(b, rows, cols),
+            8 => pack_b_const::<8>(b, rows, cols),
+            16 => pack_b_const::<16>(b, rows, cols),
+            32 => pack_b_const::<32>(b, rows, cols),
+            _ => return None,
+        })
+    }
     // --- end C16 ---
 }
